@@ -4,7 +4,7 @@ import vlib
 from vlib import hexs
 
 REQUIRED = ['domainvalid_spec', 'domainvalid_no_fault', 'localpart_spec', 'localpart_clean', 'localpart_no_fault',
-            'parseaddr_spec', 'accepted_is_rfc5321', 'parseaddr_no_fault', 'addrsyntax_spec', 'parse_no_fault',
+            'parseaddr_spec', 'pton4_spec', 'accepted_is_rfc5321', 'accepted_ipv4_is_rfc5321', 'parseaddr_no_fault', 'addrsyntax_spec', 'parse_no_fault',
             'parse_no_fault_line', 'xtext_spec', 'xtext_no_fault', 'strict_fix_only_rejects',
             'lax_localpart_counterexample', 'addrparse_accepts_only_wellformed']
 
@@ -207,7 +207,7 @@ def gen_cases(ctx):
                         add(job, line, 'corpus')
 
     # ---------------- domainvalid
-    for s in exhaustive(b'a.-1_', 6 if q else 8):
+    for s in exhaustive(b'a.-1_', 7 if q else 9):
         add('domainvalid', 'domainvalid ' + hexs(s), 'exhaustive')
     tails = [t for t in exhaustive(b'a.1', 4)]
     for T in (61, 62, 63, 64, 65):                      # label bound, first and later label
@@ -218,7 +218,7 @@ def gen_cases(ctx):
     for T in range(250, 259):                           # total bound
         for _ in range(6 if q else 40):
             add('domainvalid', 'domainvalid ' + hexs(g_domain_total(rng, T)), 'total-%d' % T)
-    for _ in range(1500 if q else 30000):
+    for _ in range(8000 if q else 100000):
         r = rng.random()
         if r < 0.35:
             lens = [rng.choice([1, 2, 3, 30, 62, 63, 64, 65]) for _ in range(rng.choice([1, 2, 3, 4]))] + [rng.choice([1, 2, 3, 62, 63, 64, 65])]
@@ -235,21 +235,21 @@ def gen_cases(ctx):
         add('domainvalid', 'domainvalid ' + hexs(b'ab.c' + bytes([c])), 'byte-sweep')
 
     # ---------------- parselocalpart
-    for s in exhaustive(b'a."\\@!\x80\x1f', 4 if q else 6):
+    for s in exhaustive(b'a."\\@!\x80\x1f', 5 if q else 7):
         add('localpart', 'localpart ' + hexs(s), 'exhaustive')
     for c in range(256):
         for shape in (b'x%sy@a.de', b'"%s"@a.de', b'"\\%s"@a.de', b'%s@a.de', b'"x"%s@a.de', b'x.%s@a.de'):
             add('localpart', 'localpart ' + hexs(shape.replace(b'%s', bytes([c]))), 'byte-sweep')
-    for _ in range(2500 if q else 40000):
+    for _ in range(12000 if q else 150000):
         lp = g_local(rng)
         if rng.random() < 0.4:
             lp = mutate(rng, lp)
         add('localpart', 'localpart ' + hexs(lp + rng.choice([b'', b'@', b'@a.de', b'@@'])), 'structured')
 
     # ---------------- parseaddr / checkaddr
-    for s in exhaustive(b'a.@[]:1"', 4 if q else 6):
+    for s in exhaustive(b'a.@[]:1"', 5 if q else 7):
         add('parseaddr', 'parseaddr ' + hexs(s), 'exhaustive')
-    for _ in range(5000 if q else 80000):
+    for _ in range(25000 if q else 300000):
         r = rng.random()
         if r < 0.45:
             m = g_mailbox(rng)
@@ -276,20 +276,20 @@ def gen_cases(ctx):
         add('parseaddr', 'parseaddr ' + hexs(b'a' * T + b'.de'), 'label-bound')
 
     # ---------------- pton (the libc oracle)
-    for s in exhaustive(b'1:.f', 6 if q else 9):
+    for s in exhaustive(b'1:.f', 7 if q else 10):
         add('pton', 'pton6 ' + hexs(s), 'exhaustive6')
-    for s in exhaustive(b'0125.', 6 if q else 8):
+    for s in exhaustive(b'0125.', 6 if q else 9):
         add('pton', 'pton4 ' + hexs(s), 'exhaustive4')
-    for _ in range(3000 if q else 50000):
+    for _ in range(12000 if q else 150000):
         add('pton', 'pton6 ' + hexs(g_ipv6(rng) if rng.random() < 0.8 else mutate(rng, g_ipv6(rng))), 'structured6')
         add('pton', 'pton4 ' + hexs(g_ipv4(rng) if rng.random() < 0.8 else mutate(rng, g_ipv4(rng))), 'structured4')
 
     # ---------------- addrsyntax
-    for s in exhaustive(b'a.@>,:', 4 if q else 6):
+    for s in exhaustive(b'a.@>,:', 5 if q else 7):
         for fl in (0, 1, 2):
             add('addrsyntax', 'addrsyntax %d %s' % (fl, hexs(s)), 'exhaustive')
     pm = [b'postmaster', b'Postmaster', b'POSTMASTER', b'postmaste', b'postmasterx', b'PostMaster@a.de', b'"postmaster"']
-    for _ in range(5000 if q else 80000):
+    for _ in range(25000 if q else 300000):
         fl = rng.choice([0, 1, 1, 1, 2])
         r = rng.random()
         m = g_mailbox(rng) if r < 0.75 else (rng.choice(pm) if r < 0.85 else (b'' if r < 0.9 else mutate(rng, g_mailbox(rng))))
@@ -323,7 +323,7 @@ def gen_cases(ctx):
             add('xtextlen', 'xtextlen ' + hexs(b'+' + bytes([h1, h2]) + b'+3E'), 'hex-sweep')
     for c in range(256):
         add('xtextlen', 'xtextlen ' + hexs(b'a' + bytes([c]) + b'b@c.de'), 'byte-sweep')
-    for _ in range(3000 if q else 50000):
+    for _ in range(15000 if q else 200000):
         r = rng.random()
         m = g_mailbox(rng) if r < 0.7 else (b'<>' if r < 0.8 else mutate(rng, g_mailbox(rng)))
         x = xt_encode(rng, m, rng.choice([0.0, 0.1, 0.5, 1.0]))
@@ -339,7 +339,7 @@ def gen_cases(ctx):
         add('xtextlen', 'xtextlen ' + hexs(b'x' * (n - 1) + b'+41'), 'buf-len-%d' % n)
 
     # ---------------- addrparse (decision)
-    for _ in range(2500 if q else 30000):
+    for _ in range(10000 if q else 100000):
         fl = rng.choice([0, 1, 1])
         ip = rng.choice([b'192.0.2.4', b'::1', b'10.0.0.1', b'fe80::1', b'1.2.3.4', b'1.2.3.40'])
         r = rng.random()
@@ -451,7 +451,8 @@ def run(ctx):
                               nontrivial=nontrivial, corr_name=CORR[name])
     if not ctx.quick():
         vlib.leanchecker(ctx, ['QsmtpModel.Props.C14', 'QsmtpModel.Lemmas.Addr', 'QsmtpModel.Lemmas.AddrParse',
-                               'QsmtpModel.Lemmas.AddrXtext', 'QsmtpModel.Lemmas.AddrSyntax', 'QsmtpModel.Lemmas.Rfc5321'])
+                               'QsmtpModel.Lemmas.AddrXtext', 'QsmtpModel.Lemmas.AddrSyntax', 'QsmtpModel.Lemmas.AddrPton',
+                               'QsmtpModel.Lemmas.Rfc5321'])
     return vlib.finish(ctx, assumptions=[
         'command arguments are C strings inside the line buffer: net_read() terminates linein.s with NUL (provider: Netio model); the harness gives exactly len+1 bytes',
         'libc: inet_pton (modelled after glibc resolv/inet_pton.c and compared on every run), strchr, strcasecmp/tolower in the C locale, strdup',
